@@ -1,3 +1,584 @@
 package main
 
-func cmdCheck(args []string) { fatal("check: not yet implemented") }
+// `gosym check`: run one property's harness instances, replay counterexamples and path witnesses natively,
+// apply the known-findings list, write the evidence file and decide the exit status.
+
+import (
+	"bytes"
+	"encoding/json"
+	"flag"
+	"fmt"
+	"math/rand"
+	"os"
+	"os/exec"
+	"path/filepath"
+	"sort"
+	"strconv"
+	"strings"
+	"sync"
+	"time"
+
+	"golang.org/x/tools/go/ssa"
+)
+
+type KnownFinding struct {
+	Property string `json:"property"`
+	Harness  string `json:"harness"` // short function name
+	Kind     string `json:"kind"`
+	Label    string `json:"label"`
+	Status   string `json:"status"` // "known" | "fixed"
+	Commit   string `json:"commit,omitempty"`
+	What     string `json:"what"`
+}
+
+func loadKnown() []KnownFinding {
+	data, err := os.ReadFile(filepath.Join(verifDir, "known_findings.json"))
+	if err != nil {
+		return nil
+	}
+	var k struct {
+		Findings []KnownFinding `json:"findings"`
+	}
+	if err := json.Unmarshal(data, &k); err != nil {
+		fatal("known_findings.json: %v", err)
+	}
+	return k.Findings
+}
+
+func shortName(full string) string {
+	if i := strings.LastIndex(full, "."); i >= 0 {
+		return full[i+1:]
+	}
+	return full
+}
+
+type job struct {
+	spec   *HarnessSpec
+	fn     *ssa.Function
+	params []int
+}
+
+type nativeResult struct {
+	status, detail string
+	obs            []string
+}
+
+func cmdCheck(args []string) {
+	fs := flag.NewFlagSet("check", flag.ExitOnError)
+	prop := fs.String("prop", "", "property id, e.g. C06")
+	tier := fs.String("tier", "", "quick | thorough")
+	workers := fs.Int("workers", 14, "parallel engine workers")
+	only := fs.String("only", "", "run only harnesses whose name contains this")
+	replayPath := fs.String("replay", "", "replay a stored counterexample vector natively instead of checking")
+	keep := fs.Bool("keep", false, "keep work directory")
+	noNative := fs.Bool("no-native", false, "skip native runs (development only; never for registered checks)")
+	fs.Parse(args)
+	if *tier == "" {
+		*tier = os.Getenv("VERIF_TIER")
+	}
+	if *tier == "" {
+		*tier = "quick"
+	}
+	seed := int64(0)
+	if s := os.Getenv("VERIF_SEED"); s != "" {
+		if n, err := strconv.ParseInt(s, 10, 64); err == nil {
+			seed = n
+		}
+	}
+	start := time.Now()
+	reg := loadRegistry()
+	spec, ok := reg[*prop]
+	if !ok {
+		fatal("property %s not in registry", *prop)
+	}
+	work := filepath.Join(verifDir, ".work", *prop+"-"+*tier)
+	os.RemoveAll(work)
+	os.MkdirAll(work, 0o755)
+	if !*keep {
+		defer os.RemoveAll(work)
+	}
+
+	// packages needed
+	pkgSet := map[string]bool{}
+	for _, h := range spec.Harnesses {
+		i := strings.LastIndex(h.Func, ".")
+		pkgSet[h.Func[:i]] = true
+	}
+	var pkgs []string
+	for p := range pkgSet {
+		pkgs = append(pkgs, p)
+	}
+	sort.Strings(pkgs)
+
+	// overlay: harness files + generated replay tests
+	ov, _ := buildOverlay(nil)
+	ovFiles := map[string]string{} // virtual -> real path on disk (for go test -overlay)
+	filepath.Walk(harnessDir, func(p string, info os.FileInfo, err error) error {
+		if err != nil || info.IsDir() || !strings.HasSuffix(p, ".go") {
+			return nil
+		}
+		rel, _ := filepath.Rel(harnessDir, p)
+		if strings.HasPrefix(rel, "vh/") {
+			ovFiles[filepath.Join(repoDir, "zzverif", rel)] = p
+		} else if !strings.HasPrefix(rel, "_") {
+			ovFiles[filepath.Join(repoDir, rel)] = p
+		}
+		return nil
+	})
+
+	if *replayPath != "" {
+		os.Exit(replayOnly(*prop, *replayPath, ovFiles, work))
+	}
+
+	var pats []string
+	for _, p := range pkgs {
+		pats = append(pats, "./"+p)
+	}
+	pats = append(pats, "./zzverif/vh")
+	t0 := time.Now()
+	prog, _ := loadProgram(ov, pats)
+	loadTime := time.Since(t0)
+	sh := NewShared(prog)
+
+	// jobs
+	var jobs []job
+	for i := range spec.Harnesses {
+		h := &spec.Harnesses[i]
+		if *only != "" && !strings.Contains(h.Func, *only) {
+			continue
+		}
+		fn := findFunc(prog, h.Func)
+		if fn == nil {
+			fatal("harness %s not found (does the harness compile against the current tree?)", h.Func)
+		}
+		ps := h.Quick
+		if *tier == "thorough" && h.Thorough != nil {
+			ps = h.Thorough
+		}
+		if len(ps) == 0 {
+			ps = [][]int{nil}
+		}
+		for _, p := range ps {
+			jobs = append(jobs, job{spec: h, fn: fn, params: p})
+		}
+	}
+	rng := rand.New(rand.NewSource(seed))
+	rng.Shuffle(len(jobs), func(i, j int) { jobs[i], jobs[j] = jobs[j], jobs[i] })
+
+	results := make([]InstanceResult, len(jobs))
+	var wg sync.WaitGroup
+	ch := make(chan int)
+	for w := 0; w < *workers; w++ {
+		wg.Add(1)
+		go func() {
+			defer wg.Done()
+			for i := range ch {
+				j := jobs[i]
+				cfg := runCfg{unwind: 100000, maxSteps: 200_000_000, maxPaths: 2_000_000, timeout: 10 * time.Minute, solver: "z3", solverTimeoutMs: 60000, witnessPerInstance: 1}
+				if *tier == "thorough" {
+					cfg.timeout = 40 * time.Minute
+					cfg.witnessPerInstance = 2
+				}
+				if j.spec.Unwind > 0 {
+					cfg.unwind = j.spec.Unwind
+				}
+				if j.spec.MaxSteps > 0 {
+					cfg.maxSteps = j.spec.MaxSteps
+				}
+				if j.spec.MaxPaths > 0 {
+					cfg.maxPaths = j.spec.MaxPaths
+				}
+				if j.spec.Timeout > 0 {
+					cfg.timeout = time.Duration(j.spec.Timeout) * time.Second
+				}
+				results[i] = runInstance(sh, j.fn, j.params, cfg)
+			}
+		}()
+	}
+	for i := range jobs {
+		ch <- i
+	}
+	close(ch)
+	wg.Wait()
+
+	// ---- collect ----
+	var inconclusive []string
+	totalPaths, completed, queries, nsat, nunsat, nunk := 0, 0, 0, 0, 0, 0
+	var solverTime time.Duration
+	for _, r := range results {
+		totalPaths += r.Paths
+		completed += r.Completed
+		queries += r.Queries
+		nsat += r.Sat
+		nunsat += r.Unsat
+		nunk += r.Unknown
+		solverTime += r.SolverTime
+		for _, s := range r.Inconclusive {
+			inconclusive = append(inconclusive, fmt.Sprintf("%s%v: %s", shortName(r.Func), r.Params, s))
+		}
+	}
+	// reach witnesses
+	for _, j := range jobs {
+		tags := j.spec.Reach
+		if tags == nil {
+			tags = []string{"end"}
+		}
+		hasVio := false
+		for _, v := range sh.violations {
+			if v.Harness == j.fn.String() {
+				hasVio = true
+			}
+		}
+		for _, tg := range tags {
+			if !sh.reach[j.fn.String()+"|"+tg] && !hasVio {
+				inconclusive = append(inconclusive, fmt.Sprintf("%s: reachability witness %q not reached (vacuous harness?)", shortName(j.fn.String()), tg))
+			}
+		}
+	}
+
+	// ---- native replay of candidates and witnesses ----
+	type vecRef struct {
+		path    string
+		vio     *Violation
+		wit     *Witness
+		harness string
+	}
+	var vecs []vecRef
+	evReplayDir := filepath.Join(verifDir, "evidence", "replay")
+	os.MkdirAll(evReplayDir, 0o755)
+	// remove stale replay vectors of this property
+	if old, _ := filepath.Glob(filepath.Join(evReplayDir, *prop+"-*.json")); old != nil {
+		for _, f := range old {
+			os.Remove(f)
+		}
+	}
+	sort.Slice(sh.violations, func(i, j int) bool {
+		a, b := sh.violations[i], sh.violations[j]
+		return a.Harness+a.Label < b.Harness+b.Label
+	})
+	for i := range sh.violations {
+		v := &sh.violations[i]
+		p := filepath.Join(evReplayDir, fmt.Sprintf("%s-%d.json", *prop, i+1))
+		writeJSON(p, map[string]interface{}{"harness": v.Harness, "params": v.Params, "inputs": v.Inputs, "kind": v.Kind, "label": v.Label, "site": v.Site, "trace": v.Trace, "property": *prop})
+		vecs = append(vecs, vecRef{path: p, vio: v, harness: v.Harness})
+	}
+	for i := range sh.witnesses {
+		w := &sh.witnesses[i]
+		p := filepath.Join(work, fmt.Sprintf("wit-%d.json", i))
+		writeJSON(p, map[string]interface{}{"harness": w.Harness, "params": w.Params, "inputs": w.Inputs})
+		vecs = append(vecs, vecRef{path: p, wit: w, harness: w.Harness})
+	}
+	native := map[string]nativeResult{}
+	nativeErr := ""
+	if len(vecs) > 0 && !*noNative {
+		byPkg := map[string][]string{}
+		for _, v := range vecs {
+			full := v.harness
+			i := strings.LastIndex(full, ".")
+			rel := strings.TrimPrefix(full[:i], modPath+"/")
+			byPkg[rel] = append(byPkg[rel], v.path)
+		}
+		repeat := 1
+		for _, h := range spec.Harnesses {
+			if h.Repeat > repeat {
+				repeat = h.Repeat
+			}
+		}
+		var mu sync.Mutex
+		var nwg sync.WaitGroup
+		for rel, paths := range byPkg {
+			nwg.Add(1)
+			go func(rel string, paths []string) {
+				defer nwg.Done()
+				res, err := runNative(prog, rel, paths, ovFiles, work, repeat)
+				mu.Lock()
+				for k, v := range res {
+					native[k] = v
+				}
+				if err != nil && nativeErr == "" {
+					nativeErr = err.Error()
+				}
+				mu.Unlock()
+			}(rel, paths)
+		}
+		nwg.Wait()
+	}
+	if nativeErr != "" {
+		inconclusive = append(inconclusive, "native replay failed: "+nativeErr)
+	}
+
+	known := loadKnown()
+	var confirmed, knownHits, mismatches []string
+	nViol := 0
+	witnessOK := 0
+	for _, v := range vecs {
+		nr, have := native[v.path]
+		if *noNative {
+			if v.vio != nil {
+				confirmed = append(confirmed, fmt.Sprintf("VIOLATION property=%s replay=%s", *prop, v.path))
+				fmt.Printf("CANDIDATE (not replayed) %s %s: %s\n", shortName(v.vio.Harness), v.vio.Kind, v.vio.Label)
+				nViol++
+			}
+			continue
+		}
+		if !have {
+			mismatches = append(mismatches, fmt.Sprintf("no native result for %s", v.path))
+			continue
+		}
+		if v.wit != nil {
+			if nr.status != "ok" {
+				mismatches = append(mismatches, fmt.Sprintf("path witness of %s%v fails natively (%s: %s) although the engine completed the path", shortName(v.wit.Harness), v.wit.Params, nr.status, nr.detail))
+				continue
+			}
+			if strings.Join(nr.obs, ";") != strings.Join(v.wit.Expected, ";") {
+				mismatches = append(mismatches, fmt.Sprintf("observations differ for %s%v: engine %v native %v", shortName(v.wit.Harness), v.wit.Params, v.wit.Expected, nr.obs))
+				continue
+			}
+			witnessOK++
+			continue
+		}
+		vio := v.vio
+		reproduced := false
+		switch vio.Kind {
+		case "assert":
+			reproduced = nr.status == "assert" && nr.detail == vio.Label
+		case "panic":
+			reproduced = nr.status == "panic"
+		}
+		if !reproduced {
+			mismatches = append(mismatches, fmt.Sprintf("solver model for %s [%s: %s] does not reproduce natively (native: %s %s)", shortName(vio.Harness), vio.Kind, vio.Label, nr.status, nr.detail))
+			continue
+		}
+		isKnown := false
+		for _, k := range known {
+			if k.Status == "known" && k.Property == *prop && k.Harness == shortName(vio.Harness) && k.Kind == vio.Kind && k.Label == vio.Label {
+				isKnown = true
+				knownHits = append(knownHits, fmt.Sprintf("KNOWN-FINDING: property=%s %s [%s %s: %s]", *prop, k.What, k.Harness, k.Kind, k.Label))
+			}
+		}
+		if !isKnown {
+			nViol++
+			confirmed = append(confirmed, fmt.Sprintf("VIOLATION property=%s replay=%s", *prop, v.path))
+			fmt.Printf("violated: %s%v %s: %s  at %s\n  native: %s %s\n", shortName(vio.Harness), vio.Params, vio.Kind, vio.Label, vio.Site, nr.status, nr.detail)
+		}
+	}
+
+	// ---- evidence ----
+	nontrivial := 0
+	for _, sym := range sh.asserts {
+		if sym {
+			nontrivial++
+		}
+	}
+	var samples []interface{}
+	for _, s := range sh.samples {
+		samples = append(samples, s)
+	}
+	for i, v := range sh.violations {
+		if i < 3 {
+			samples = append(samples, map[string]interface{}{"counterexample": v})
+		}
+	}
+	if len(samples) == 0 {
+		samples = append(samples, "no symbolic obligation sampled")
+	}
+	var instSumm []string
+	for _, r := range results {
+		instSumm = append(instSumm, fmt.Sprintf("%s%v paths=%d queries=%d solver=%.2fs wall=%.2fs", shortName(r.Func), r.Params, r.Paths, r.Queries, r.SolverTime.Seconds(), r.Wall.Seconds()))
+	}
+	sort.Strings(instSumm)
+	repoFuncs, otherFuncs := []string{}, 0
+	for _, f := range sh.funcList() {
+		if strings.Contains(f, modPath) && !strings.Contains(f, "Verif") && !strings.Contains(f, "zzverif") && !strings.Contains(f, ".v") {
+			repoFuncs = append(repoFuncs, strings.ReplaceAll(f, modPath+"/", ""))
+		} else {
+			otherFuncs++
+		}
+	}
+	ev := map[string]interface{}{
+		"property_id": *prop,
+		"tier":        *tier,
+		"seed":        seed,
+		"level":       "other",
+		"coverage": map[string]interface{}{
+			"explanation":            spec.Explanation,
+			"technique":              "bounded symbolic execution of the real Go code (go/ssa -> SMT-LIB2 bit-vectors), verdicts by z3; SSA and encoding rebuilt from /repo on this run",
+			"evaluations":            totalPaths,
+			"distinct_nontrivial":    nontrivial,
+			"rule":                   "evaluations = symbolic paths explored (each covers all input values satisfying its path condition); distinct_nontrivial = distinct (harness, assertion) pairs whose condition was symbolic and had to be decided by the solver",
+			"samples":                samples,
+			"obligations":            sh.stats.get("obligations"),
+			"discharged":             sh.stats.get("discharged"),
+			"paths_completed":        completed,
+			"instances":              len(jobs),
+			"instance_summaries":     instSumm,
+			"functions_encoded":      repoFuncs,
+			"other_functions_executed": otherFuncs,
+			"bounds":                 spec.Bounds,
+			"queries":                map[string]int{"total": queries, "sat": nsat, "unsat": nunsat, "unknown": nunk},
+			"solver":                 "z3 4.8.12 (z3 -in, incremental push/pop)",
+			"solver_time_s":          solverTime.Seconds(),
+			"load_ssa_time_s":        loadTime.Seconds(),
+			"reach_witnesses":        sortedKeys(sh.reach),
+			"path_witnesses_replayed_natively": witnessOK,
+			"counterexamples_replayed_natively": len(sh.violations),
+			"inconclusive":           inconclusive,
+			"encoder_mismatches":     mismatches,
+			"known_findings_hit":     knownHits,
+			"exhaustive":             false,
+		},
+		"assumptions": spec.Assumptions,
+		"wall_s":      time.Since(start).Seconds(),
+		"violations":  nViol,
+	}
+	writeJSON(filepath.Join(verifDir, "evidence", *prop+".json"), ev)
+
+	// ---- verdict ----
+	fmt.Printf("property %s tier %s: %d instances, %d paths, %d obligations (%d discharged), %d queries, solver %.1fs, wall %.1fs\n",
+		*prop, *tier, len(jobs), totalPaths, sh.stats.get("obligations"), sh.stats.get("discharged"), queries, solverTime.Seconds(), time.Since(start).Seconds())
+	for _, k := range knownHits {
+		fmt.Println(k)
+	}
+	for _, m := range mismatches {
+		fmt.Println("ENCODER-MISMATCH: " + m)
+	}
+	for _, s := range inconclusive {
+		fmt.Println("INCONCLUSIVE: " + s)
+	}
+	for _, c := range confirmed {
+		fmt.Println(c)
+	}
+	switch {
+	case nViol > 0:
+		os.Exit(1)
+	case len(mismatches) > 0 || len(inconclusive) > 0:
+		os.Exit(2)
+	}
+	fmt.Printf("HOLDS(within bounds) property=%s\n", *prop)
+}
+
+func writeJSON(path string, v interface{}) {
+	data, err := json.MarshalIndent(v, "", " ")
+	if err != nil {
+		fatal("json: %v", err)
+	}
+	if err := os.WriteFile(path, append(data, '\n'), 0o644); err != nil {
+		fatal("write %s: %v", path, err)
+	}
+}
+
+// runNative executes the listed vectors against the real build of package rel (relative to the module root).
+func runNative(prog *ssa.Program, rel string, paths []string, ovFiles map[string]string, work string, repeat int) (map[string]nativeResult, error) {
+	pkgPath := modPath + "/" + rel
+	var sp *ssa.Package
+	for _, q := range prog.AllPackages() {
+		if q.Pkg.Path() == pkgPath {
+			sp = q
+		}
+	}
+	if sp == nil {
+		return nil, fmt.Errorf("package %s not loaded", pkgPath)
+	}
+	// harness functions of this package: Verif* with no parameters
+	var names []string
+	for name, m := range sp.Members {
+		if f, ok := m.(*ssa.Function); ok && strings.HasPrefix(name, "Verif") && f.Signature.Params().Len() == 0 && f.Signature.Results().Len() == 0 {
+			names = append(names, name)
+		}
+	}
+	sort.Strings(names)
+	return runNativeNames(sp.Pkg.Name(), rel, names, paths, ovFiles, work, repeat)
+}
+
+func runNativeNames(pkgName, rel string, names []string, paths []string, ovFiles map[string]string, work string, repeat int) (map[string]nativeResult, error) {
+	var src bytes.Buffer
+	fmt.Fprintf(&src, "//go:build verif\n\npackage %s\n\nimport (\n\t\"testing\"\n\n\t\"%s/zzverif/vh\"\n)\n\nfunc TestVerifReplay(t *testing.T) {\n\tvh.RunReplay(map[string]func(){\n", pkgName, modPath)
+	for _, n := range names {
+		fmt.Fprintf(&src, "\t\t%q: %s,\n", n, n)
+	}
+	fmt.Fprintf(&src, "\t})\n}\n")
+	tag := strings.ReplaceAll(rel, "/", "_")
+	testFile := filepath.Join(work, "replay_"+tag+"_test.go")
+	os.WriteFile(testFile, src.Bytes(), 0o644)
+	ov := map[string]string{}
+	for k, v := range ovFiles {
+		ov[k] = v
+	}
+	ov[filepath.Join(repoDir, rel, "zz_verif_replay_test.go")] = testFile
+	ovPath := filepath.Join(work, "overlay_"+tag+".json")
+	writeJSON(ovPath, map[string]interface{}{"Replace": ov})
+	listPath := filepath.Join(work, "list_"+tag+".txt")
+	os.WriteFile(listPath, []byte(strings.Join(paths, "\n")+"\n"), 0o644)
+	cmd := exec.Command("go", "test", "-tags", buildTags, "-overlay", ovPath, "-run", "^TestVerifReplay$", "-count=1", "-v", "-vet=off", "-timeout", "20m", "./"+rel+"/")
+	cmd.Dir = repoDir
+	cmd.Env = append(os.Environ(), "GOFLAGS=-mod=mod", "GOPROXY=off", "GOTOOLCHAIN=local", "VERIF_REPLAY_LIST="+listPath, "VERIF_REPEAT="+strconv.Itoa(repeat))
+	out, err := cmd.CombinedOutput()
+	res := map[string]nativeResult{}
+	for _, line := range strings.Split(string(out), "\n") {
+		if strings.HasPrefix(line, "VERIF-RESULT ") {
+			f := strings.SplitN(line, " ", 4)
+			nr := res[f[1]]
+			nr.status = f[2]
+			if len(f) > 3 {
+				nr.detail = strings.TrimSpace(f[3])
+			}
+			res[f[1]] = nr
+		} else if strings.HasPrefix(line, "VERIF-OBS ") {
+			f := strings.SplitN(line, " ", 3)
+			nr := res[f[1]]
+			if len(f) > 2 && strings.TrimSpace(f[2]) != "" {
+				nr.obs = strings.Split(strings.TrimSpace(f[2]), ";")
+			}
+			res[f[1]] = nr
+		}
+	}
+	if len(res) < len(paths) {
+		tail := string(out)
+		if len(tail) > 3000 {
+			tail = tail[len(tail)-3000:]
+		}
+		return res, fmt.Errorf("go test ./%s produced %d of %d results (err=%v): %s", rel, len(res), len(paths), err, tail)
+	}
+	return res, nil
+}
+
+// replayOnly re-runs a stored counterexample vector natively.
+func replayOnly(prop, path string, ovFiles map[string]string, work string) int {
+	data, err := os.ReadFile(path)
+	if err != nil {
+		fatal("replay: %v", err)
+	}
+	var v struct {
+		Harness string `json:"harness"`
+		Kind    string `json:"kind"`
+		Label   string `json:"label"`
+	}
+	json.Unmarshal(data, &v)
+	i := strings.LastIndex(v.Harness, ".")
+	rel := strings.TrimPrefix(v.Harness[:i], modPath+"/")
+	name := v.Harness[i+1:]
+	// package name from the harness file
+	pkgName := filepath.Base(rel)
+	if fs, _ := filepath.Glob(filepath.Join(harnessDir, rel, "*.go")); len(fs) > 0 {
+		src, _ := os.ReadFile(fs[0])
+		for _, line := range strings.Split(string(src), "\n") {
+			if strings.HasPrefix(line, "package ") {
+				pkgName = strings.TrimSpace(strings.TrimPrefix(line, "package "))
+				break
+			}
+		}
+	}
+	res, err := runNativeNames(pkgName, rel, []string{name}, []string{path}, ovFiles, work, 50)
+	if err != nil {
+		fmt.Println("replay failed:", err)
+		return 2
+	}
+	nr := res[path]
+	fmt.Printf("native replay of %s: %s %s\n", path, nr.status, nr.detail)
+	if nr.status == "ok" {
+		fmt.Println("NOT REPRODUCED")
+		return 0
+	}
+	fmt.Printf("REPRODUCED property=%s %s: %s\n", prop, v.Kind, v.Label)
+	return 1
+}
